@@ -30,6 +30,9 @@ import time
 import traceback
 
 VERIF = os.path.dirname(os.path.dirname(os.path.abspath(__file__)))
+# evidence/ is rewritten by every run against /repo; the self-test and seed tools (which run the checks on
+# deliberately broken trees) redirect it so that the committed evidence always describes the real tree
+EVIDENCE_DIR = os.environ.get("VERIF_EVIDENCE_DIR") or os.path.join(VERIF, "evidence")
 LEAN = os.path.join(VERIF, "lean")
 REPO = os.environ.get("VERIF_REPO", "/repo")
 DRIVER = os.path.join(LEAN, ".lake", "build", "bin", "driver")
@@ -322,7 +325,7 @@ def case_key(case):
 
 
 def write_replay(prop, payload):
-    d = os.path.join(VERIF, "evidence", "replays")
+    d = os.path.join(EVIDENCE_DIR, "replays")
     os.makedirs(d, exist_ok=True)
     h = hashlib.sha1(json.dumps(payload, sort_keys=True, default=str).encode()).hexdigest()[:10]
     p = os.path.join(d, "%s_%s.json" % (prop, h))
@@ -584,8 +587,8 @@ def run_property(prop, tier, seed, replay=None):
               wall_s=round(time.time() - t0, 2), violations=len(violations),
               known_findings=known_lines)
     if not replay:
-        os.makedirs(os.path.join(VERIF, "evidence"), exist_ok=True)
-        json.dump(ev, open(os.path.join(VERIF, "evidence", prop + ".json"), "w"), indent=1)
+        os.makedirs(EVIDENCE_DIR, exist_ok=True)
+        json.dump(ev, open(os.path.join(EVIDENCE_DIR, prop + ".json"), "w"), indent=1)
 
     for ln in known_lines:
         print(ln)
